@@ -21,22 +21,24 @@ structure Lawful (k : KeyCodec) : Prop where
 /-- whatever the tree and whatever the codec: a successful parse returns a well-formed set
 (robustness: arbitrary documents either report an error or yield a set satisfying the invariant) -/
 theorem read_well_formed (k : KeyCodec) (j : J) (s : SetTrie) :
-    fromJSONWith k j = .ok s → s.wf = true := sorry
+    fromJSONWith k j = .ok s → s.wf = true := Ser.wf_fromJSON k j s
 
 /-- serialising a set and parsing it back yields an equal set -/
 theorem read_emit (k : KeyCodec) (hk : Lawful k) (s : SetTrie) (hs : s.wf = true) :
-    ∃ j, toJSONWith k s = some j ∧ ∃ s', fromJSONWith k j = .ok s' ∧ equals s' s = true := sorry
+    ∃ j, toJSONWith k s = some j ∧ ∃ s', fromJSONWith k j = .ok s' ∧ equals s' s = true :=
+  Ser.fromJSON_toJSON k hk.total hk.roundtrip hk.notDot s hs
 
 /-- members whose key is of an unknown element kind are skipped, wherever they stand -/
 theorem read_skips_unknown (k : KeyCodec) (a b : List (String × J)) (key : String) (sub : J) (acc : ReadOut)
     (h : k.dec key = .error .unknownType) (hd : key ≠ ".") :
-    readMembersWith k (a ++ (key, sub) :: b) acc = readMembersWith k (a ++ b) acc := sorry
+    readMembersWith k (a ++ (key, sub) :: b) acc = readMembersWith k (a ++ b) acc :=
+  Ser.readMembers_skip k b key sub h hd a acc
 
 /-- parsing tolerates repeated keys: no error arises from a repetition as such (a document whose
 members all parse reads without error) -/
 theorem read_no_error_without_bad_keys (k : KeyCodec) (ms : List (String × J))
     (hkeys : ∀ x, x ∈ ms → x.1 = "." ∨ (∃ pe, k.dec x.1 = .ok pe) ∨ k.dec x.1 = .error .unknownType)
     (hsubs : ∀ x, x ∈ ms → x.2 = J.obj []) :
-    ∃ s, fromJSONWith k (J.obj ms) = .ok s := sorry
+    ∃ s, fromJSONWith k (J.obj ms) = .ok s := Ser.fromJSON_ok_of_keys k ms hkeys hsubs
 
 end SMD.C16
